@@ -285,7 +285,7 @@ def evaluate_bundle(prop, spec, bdir, meta):
         fam = c.family.split('-')[0]
         res['families'][fam] = res['families'].get(fam, 0) + 1
         mo = mobs.get(cid)
-        if c.family.startswith('tokio'):
+        if c.family.startswith(('tokio', 'nm-')):
             mo = {}     # run inside a real tokio runtime: not modelled, monitors only
             res['tokio_cases'] = res.get('tokio_cases', 0) + 1
         if cid in gobs and 'GX' not in gobs[cid] and (
@@ -302,7 +302,7 @@ def evaluate_bundle(prop, spec, bdir, meta):
                 # single-poll schedules: which poll of a self-woken task starts a function is not part of
                 # any property; compare what starts over the whole run and how the run ends
                 cobs, mo = _aggregate_polls(c.obs), _aggregate_polls(mo)
-            for t in (sorted(set(cobs) | set(mo)) if not c.family.startswith('tokio') else []):
+            for t in (sorted(set(cobs) | set(mo)) if not c.family.startswith(('tokio', 'nm-')) else []):
                 a, b = cobs.get(t), mo.get(t)
                 if t == 'P' and a is None:
                     continue   # hooks feature off
